@@ -27,6 +27,8 @@ def configs(tier, seed):
             for n in ns:
                 for t0 in range(n - 1):
                     out.append(dict(h="causal", op=kind, key=f"causal/{kind}/grid={grid}/n={n}/t0={t0}", kind=kind, grid=grid, n=n, t0=t0, extra={"r": 2}))
+                    if n == 3 and grid != "const":
+                        out.append(dict(h="causal", op=kind + "again", key=f"causal/{kind}/grid={grid}/n={n}/t0={t0}/same_model_computed_before", kind=kind, grid=grid, n=n, t0=t0, extra={"r": 2}, reuse=True))
                 if kind == "idsm" or n <= 3:  # stock-driven superposition at n >= 4: nlsat does not finish every outflow row within the budget
                     out.append(dict(h="linear", op=kind, key=f"linear/{kind}/grid={grid}/n={n}", kind=kind, grid=grid, n=n, extra={"r": 2} if n < 5 else {}))
                 for extra in ([{"r": 2}] if tier == "quick" else [{"r": 2}, {"r": 2, "p": 2}]):
@@ -50,6 +52,9 @@ def configs(tier, seed):
     for grid in dsm.GRIDS:
         for n in ns:
             out.append(dict(h="impulse", op="idsm", key=f"impulse/idsm/grid={grid}/n={n}", kind="idsm", grid=grid, n=n, extra={"r": 2}))
+            if grid != "const":
+                # every impulse on one model object that has been computed before with an arbitrary driver
+                out.append(dict(h="impulse", op="idsm3", key=f"impulse/idsm/grid={grid}/n={n}/same_model_computed_before", kind="idsm", grid=grid, n=n, extra={"r": 2}, reuse=True))
             if grid == "uneven" and n == 4:
                 # the same after another model was run on a different grid with the same end points and length
                 out.append(dict(h="impulse", op="idsm2", key=f"impulse/idsm/grid={grid}/n={n}/after_other_grid", kind="idsm", grid=grid, n=n, extra={"r": 2}, after_other_grid=True))
@@ -75,6 +80,13 @@ def ctx_setup(cfg, c):
 def _results(st):
     return dict(stock=st.stock.values, inflow=st.inflow.values, outflow=st.outflow.values,
                 stock_by_cohort=st.get_stock_by_cohort(), outflow_by_cohort=st.get_outflow_by_cohort())
+
+
+def _run_on(st, kind, driver):
+    """the same model object computed again with another driver (scenario loop)"""
+    (st.inflow if kind == "idsm" else st.stock).set_values(driver.copy())
+    st.compute()
+    return _results(st)
 
 
 def _run(kind, dims, tab, driver):
@@ -212,7 +224,15 @@ def run(cfg, w):
         fresh = w.arr("e", (n - 1 - t0,) + tuple(shape[1:]))
         D2[t0 + 1:] = fresh
         r1 = _run(kind, dims, tab, D)
-        r2 = _run(kind, dims, tab, D2)
+        if cfg.get("reuse"):
+            # the second run on a model object that was computed before with a driver that is zero from t0+1 on
+            D0 = D.copy()
+            D0[t0 + 1:] = 0
+            reused = dsm.build_stock(kind, dims, lifetime=dsm.AnyLifetime(dims=dims, table=tab), **({"inflow": D0} if kind == "idsm" else {"stock": D0}))
+            reused.compute()
+            r2 = _run_on(reused, kind, D2)
+        else:
+            r2 = _run(kind, dims, tab, D2)
         for k in r1:
             a1, a2 = np.asarray(r1[k]), np.asarray(r2[k])
             for idx in np.ndindex(*a1.shape):
@@ -271,7 +291,13 @@ def run(cfg, w):
                     from svx.sym import symarr
 
                     E = symarr(E)
-                r = _run("idsm", dims, tab, E)
+                if cfg.get("reuse"):
+                    if c == 0 and lab == labs[0]:
+                        reused = dsm.build_stock("idsm", dims, lifetime=dsm.AnyLifetime(dims=dims, table=tab), inflow=D)
+                        reused.compute()
+                    r = _run_on(reused, "idsm", E)
+                else:
+                    r = _run("idsm", dims, tab, E)
                 for t in range(n):
                     for lab2 in labs:
                         want = tab[(t, c) + lab] * dt[c] if lab2 == lab else 0
